@@ -168,6 +168,67 @@ theorem c13_register_occupies (s : State) (id : Nat) (h0 : id ≠ 0) (hlt : id <
   have : ¬ (id = 0 ∨ 2 ^ s.k ≤ id) := by omega
   simp [available, State.isActive, step, this]
 
+/-! ### Streams registered while `stop_all_streams()` is walking over the table -/
+
+theorem sweepOne_active (retry : Nat → Bool) (s : State) (id : Nat) :
+    (∀ m, m ∈ s.active → m ≠ id → m ∈ (sweepOne retry s id).1.active) ∧
+    (∀ n, n ∈ (sweepOne retry s id).2 → n ∉ s.active ∧ (n ≠ id → n ∈ (sweepOne retry s id).1.active)) := by
+  unfold sweepOne
+  by_cases hr : retry id = true
+  · cases ha : alloc s.k s.isActive s.cur with
+    | mk o c =>
+      cases o with
+      | none =>
+        simp [hr, step, ha]
+        intro m hm hne; exact ⟨hm, hne⟩
+      | some n =>
+        have hna : s.isActive n = false := by
+          have := allocLoop_some s.k s.isActive _ s.cur n c ha
+          obtain ⟨_, j, _, _, _, _, hna, _⟩ := this
+          exact hna
+        have hn : n ∉ s.active := by simpa [State.isActive] using hna
+        simp [hr, step, ha]
+        exact ⟨fun m hm hne => ⟨Or.inr hm, hne⟩, hn⟩
+  · simp [hr, step]
+    intro m hm hne; exact ⟨hm, hne⟩
+
+theorem sweepLoop_keeps (retry : Nat → Bool) (rest : List Nat) (s : State)
+    (hsub : ∀ x, x ∈ rest → x ∈ s.active) (hnd : rest.Nodup) :
+    (∀ m, m ∈ s.active → m ∉ rest → m ∈ (sweepLoop retry s rest).1.active) ∧
+    (∀ n, n ∈ (sweepLoop retry s rest).2 → n ∈ (sweepLoop retry s rest).1.active) := by
+  induction rest generalizing s with
+  | nil => simp [sweepLoop]
+  | cons id rest ih =>
+    obtain ⟨hkeep1, hnew1⟩ := sweepOne_active retry s id
+    have hidn : id ∉ rest := (List.nodup_cons.mp hnd).1
+    have hsub' : ∀ x, x ∈ rest → x ∈ (sweepOne retry s id).1.active := fun x hx =>
+      hkeep1 x (hsub x (List.mem_cons_of_mem _ hx)) (fun h => hidn (h ▸ hx))
+    obtain ⟨ihk, ihn⟩ := ih (sweepOne retry s id).1 hsub' (List.nodup_cons.mp hnd).2
+    simp only [sweepLoop]
+    refine ⟨fun m hm hnot => ?_, fun n hn => ?_⟩
+    · have hne : m ≠ id := fun h => hnot (h ▸ List.mem_cons_self)
+      exact ihk m (hkeep1 m hm hne) (fun h => hnot (List.mem_cons_of_mem _ h))
+    · rcases List.mem_append.mp hn with h | h
+      · obtain ⟨hnot, hin⟩ := hnew1 n h
+        have hne : n ≠ id := fun e => hnot (e ▸ hsub id List.mem_cons_self)
+        exact ihk n (hin hne) (fun hr => hnot (hsub n (List.mem_cons_of_mem _ hr)))
+      · exact ihn n h
+
+/-- `stop_all_streams()` with applications that react to the failure of their stream by opening a
+new one at once: every stream registered while the table is being walked is still registered when
+the walk is over — its id stays reserved (`assert_stream_id_available` refuses it, the allocator
+skips it) — whatever the table, the position of the allocator, and whichever owners retry. -/
+theorem c13_registered_during_sweep_stays_reserved (retry : Nat → Bool) (s : State) (hnd : s.active.Nodup)
+    (n : Nat) (hn : n ∈ (sweep retry s).2) :
+    available (sweep retry s).1 n = false := by
+  have := (sweepLoop_keeps retry s.active s (fun _ h => h) hnd).2 n hn
+  simpa [available, State.isActive, sweep] using this
+
+/-- Non-vacuity, with a wrap: a 3-bit space holding 1, 3 and 5 with the allocator at 5; the owners of 5 and 1 retry:
+the retries get 7 and (after the wrap) 3 — freed a moment earlier by the walk itself — and both are reserved afterwards. -/
+example : (sweep (fun i => i == 5 || i == 1) { k := 3, cur := 5, active := [5, 3, 1] }).2 = [7, 3]
+    ∧ (sweep (fun i => i == 5 || i == 1) { k := 3, cur := 5, active := [5, 3, 1] }).1.active = [3, 7] := by decide
+
 /-- The code's id width. -/
 theorem c13_code_width : Gen.maxStreamId = 2 ^ 31 - 1 := by decide
 
